@@ -7,7 +7,21 @@ const char *HARNESS_ID = "C06";
 
 static int g_hash_seed = 12345;
 #ifdef VERIF_SEED_HOOK
-extern "C" int verif_seed_hook(void) { return g_hash_seed; }
+// The entropy source may answer -1 ("no seed yet") any number of times before a real value: the library has to keep
+// asking, and the seed it finally adopts must hold for the rest of the process. Depending on the worker's seed the
+// first 0..6 answers are -1.
+static int g_seed_refusals = -1;
+extern "C" int verif_seed_hook(void)
+{
+	if (g_seed_refusals < 0)
+		g_seed_refusals = (int)((unsigned)g_hash_seed % 7u);
+	if (g_seed_refusals > 0)
+	{
+		g_seed_refusals--;
+		return -1;
+	}
+	return g_hash_seed;
+}
 #endif
 
 static uint64_t pow9sum(int L)
